@@ -23,13 +23,32 @@ def plans(tier):
     ]
 
 
+def set_plans(tier):
+    A = lambda m: {"op": "add", "m": m}
+    n = 30 if tier == "quick" else 400
+    return [
+        {"name": "set-kill-mid-message", "msgs": [[1, 2], [2, 1]], "prog": [A(1), A(2)], "simulate": n, "caps": (2,),
+         "crashers": [2], "liveness": False},
+        {"name": "set-kill-then-look", "msgs": [[2], [1]], "prog": [A(1), A(2)], "simulate": 6 if tier == "quick" else 60,
+         "caps": (2,), "crashers": [1], "senders_first": True, "liveness": False},
+    ]
+
+
 def run(tier):
+    import setcheck
     res = transcheck.campaign("C12", plans(tier), "sender process killed between two system calls")
+    # observer = receiver set (what a router sits on)
+    r2 = setcheck.campaign("C12", set_plans(tier))
+    res["violations"] += r2["violations"]
+    for k in ("states", "transitions", "traces_validated_against_impl", "evaluations", "distinct_nontrivial",
+              "unmatched_schedules"):
+        res["coverage"][k] = res["coverage"].get(k, 0) + r2["coverage"].get(k, 0)
+    res["coverage"]["samples"] += r2["coverage"]["samples"][:2]
     res["level"] = "fault_enumeration"
     res["assumptions"] = ["the crashing sender is a spawned child process held at every system-call hook and SIGKILLed "
                           "there (premise K8: death closes every descriptor); schedules are a random sample of the model's "
                           "interleavings, the model itself is checked exhaustively with the kill enabled at every step",
-                          "observers: blocking recv and try_recv here; select and router observers are covered by C06/C07"]
+                          "observers: blocking recv, try_recv and a receiver set (ReceiverSet.tla with Kill); the router sits on the same set"]
     return res
 
 
